@@ -19,6 +19,8 @@ C13_ErrorReported == IsOp => ErrorReportedP(Ev.log, Ev.res)
 C13_NoWedge       == IsOp => NoWedgeP(G, O(Ev), Ev.res, Ev.val, Ev.log)
 C13_EndedOnce     == IsOp => EndedOnceP(GAfter, Ev.open) /\ ~Ev.twice
 C13_Multi         == IsOp => MultiP(G, O(Ev), Ev.res, Ev.log)
+\* Ev.durable: the committed content of the server after the operation (what a fresh handle would read), per key
+C13_NoUnackedDurable == IsOp => NoUnackedDurableP(GAfter, Ev.durable)
 \* whether the known finding KF-pg-sticky-multi can affect this operation (an explicit transaction has ended before it)
 KfRegion == IsOp /\ (G.kf \/ GAfter.kf)
 Note_KfRegion == ~KfRegion
